@@ -13,6 +13,7 @@ Line protocol (one op per line; strings are hex, "-" = empty):
   ft <n> {<path>}*         -> hex of files.txt as getFilesTxt prints it
   lk <n> {<afile> <source>}* <src>   -> "S <cacheFile suffixFirst> E <cacheFile exactFirst> G <cacheFile Gen.lookupKind>"
   rz <stored|none> <cur> <n> {<id>}* -> "0 <n>" (reuse, n cached findings) | "1 0" (discard)
+  rd <stored|none> <cur> <n> {E<idhex> | F}*  -> as rz, for a document whose <error> and <FileInfo> children interleave
   hist …                   see `histStep`
 -/
 namespace Driver.C18
@@ -249,6 +250,28 @@ def step (line : String) : String :=
         let fs : List Finding := ids.map fun i => { id := i, file := [], line := 0, col := 0, msg := [] }
         let bd : BuildDir Nat Unit Unit := match stored.toNat? with
           | some h => [(['s'], { hash := h, findings := fs, summ := (), funs := () })]
+          | none => []
+        match reuse W bd ['s'] default with
+        | some e => s!"0 {e.findings.length}"
+        | none => "1 0"
+      | none => "bad-op"
+    | _, _ => "bad-op"
+  | "rd" :: stored :: cur :: n :: rest =>
+    -- a cache document with interleaved children: E<idhex> = <error id=…>, F = <FileInfo>; read by the translated reader
+    match cur.toNat?, n.toNat? with
+    | some cur, some n =>
+      let kids : Option (List (DocChild Unit)) := rest.mapM fun w =>
+        match w.toList with
+        | ['F'] => some (DocChild.fileInfo ())
+        | 'E' :: h => (fromHexAux h).map fun i => DocChild.error { id := i, file := [], line := 0, col := 0, msg := [] }
+        | _ => none
+      match kids with
+      | some kids =>
+        if kids.length != n then "bad-op" else
+        let W : World Nat Unit Unit := { hash := fun _ => cur, analyze := fun _ _ => [], summary := fun _ _ => (), wp := fun _ => [],
+                                         funs := fun _ _ => (), loadRet := fun _ => [], enc := Encoding.legacy, lk := .suffixFirst }
+        let bd : BuildDir Nat Unit Unit := match stored.toNat? with
+          | some h => [(['s'], { hash := h, findings := readErrors Cppcheck.Gen.HashInput.errorReader kids, summ := (), funs := () })]
           | none => []
         match reuse W bd ['s'] default with
         | some e => s!"0 {e.findings.length}"
